@@ -163,14 +163,15 @@ where
             None => continue,
         };
 
-        let start_line = lines_captures
-            .get(1)
-            .unwrap()
-            .as_str()
-            .parse::<u32>()
-            .unwrap();
+        // Numbers that do not fit are not line numbers of any file: skip such a header.
+        let Ok(start_line) = lines_captures.get(1).unwrap().as_str().parse::<u32>() else {
+            continue;
+        };
         let line_count = match lines_captures.get(3) {
-            Some(line_count) => line_count.as_str().parse::<u32>().unwrap(),
+            Some(line_count) => match line_count.as_str().parse::<u32>() {
+                Ok(line_count) => line_count,
+                Err(..) => continue,
+            },
             None => 1,
         };
 
@@ -178,7 +179,7 @@ where
             continue;
         }
 
-        let end_line = start_line + line_count - 1;
+        let end_line = start_line.saturating_add(line_count - 1);
         files.insert(file.to_owned());
         ranges.push(Range {
             file: file.to_owned(),
